@@ -37,9 +37,18 @@ MinVersion(p) == CASE p.t = "router_key" -> 1 [] p.t = "aspa" -> 2 [] OTHER -> 0
 
 ErrN == 999999       \* "the reader returns an error" (TLC cannot compare a number with a string)
 \* ---- what a reader does once it has the header: ErrN or the number of further bytes it will read
-\* entry: "payload" (Payload::read), "skip" (header + Error::skip_payload), or "t<n>" (concrete read of PDU type n)
+\* entry: "payload" (Payload::read), "skip" (header + Error::skip_payload), or one of the three readers the `concrete!` macro gives
+\* every fixed-size PDU struct: "t<k>" = read, "y<k>" = try_read (an Error PDU header is handed back as a value after 8 bytes),
+\* "p<k>" = read_payload (the caller has read the header; only the length is checked, the type is the caller's business).
+\* k: 0 Serial Notify, 1 Serial Query, 2 Reset Query, 3 Cache Response, 4 IPv4 Prefix, 6 IPv6 Prefix, 70 End of Data (version 0
+\* layout), 71 End of Data (version 1+ layout), 8 Cache Reset.
+Concrete == [k0 |-> <<0, 12>>, k1 |-> <<1, 12>>, k2 |-> <<2, 8>>, k3 |-> <<3, 8>>, k4 |-> <<4, 20>>, k6 |-> <<6, 32>>,
+             k70 |-> <<7, 12>>, k71 |-> <<7, 24>>, k8 |-> <<8, 8>>]
+Kinds == DOMAIN Concrete
+ReaderEntries == {<<r, k>> : r \in {"t", "y", "p"}, k \in Kinds}
+StreamEntries == {<<"payload", "">>, <<"skip", "">>}          \* every entry is a pair (TLC compares like with like)
 Need(entry, type, ver, len) ==
-    IF entry = "payload" THEN
+    IF entry[1] = "payload" THEN
         CASE type = 4  -> IF len = 20 THEN 12 ELSE ErrN
           [] type = 6  -> IF len = 32 THEN 24 ELSE ErrN
           [] type = 9  -> IF len >= 32 THEN len - 8 ELSE ErrN
@@ -47,9 +56,10 @@ Need(entry, type, ver, len) ==
           [] type = 7  -> IF ver = 0 THEN (IF len = 12 THEN 4 ELSE ErrN)
                           ELSE IF ver \in {1, 2} THEN (IF len = 24 THEN 16 ELSE ErrN) ELSE ErrN
           [] OTHER -> ErrN
-    ELSE IF entry = "skip" THEN (IF len >= 8 THEN len - 8 ELSE ErrN)
-    ELSE LET want == CASE entry = "t0" -> <<0, 12>> [] entry = "t1" -> <<1, 12>> [] entry = "t2" -> <<2, 8>>
-                       [] entry = "t3" -> <<3, 8>> [] entry = "t8" -> <<8, 8>> [] OTHER -> <<99, 8>>
-         IN IF type = want[1] /\ len = want[2] THEN want[2] - 8 ELSE ErrN
+    ELSE IF entry[1] = "skip" THEN (IF len >= 8 THEN len - 8 ELSE ErrN)
+    ELSE LET want == Concrete[entry[2]] IN
+         CASE entry[1] = "t" -> IF type = want[1] /\ len = want[2] THEN want[2] - 8 ELSE ErrN
+           [] entry[1] = "y" -> IF type = 10 THEN 0 ELSE IF type = want[1] /\ len = want[2] THEN want[2] - 8 ELSE ErrN
+           [] entry[1] = "p" -> IF len = want[2] THEN want[2] - 8 ELSE ErrN
 
 =============================================================================
